@@ -530,7 +530,12 @@ func (r *Message) decode(decoder Decoder) (int, error) {
 		n, err = decoder.Decode(r.bufferUnmarshal, &r.msg)
 		if errors.Is(err, message.ErrOptionsTooSmall) {
 			// increase buffer size and try again
-			r.msg.Options = make(message.Options, 0, len(r.msg.Options)*2)
+			newCap := cap(r.msg.Options) * 2
+			if newCap == 0 {
+				// the options slice may have no capacity at all (e.g. after SetMessage with nil options)
+				newCap = 16
+			}
+			r.msg.Options = make(message.Options, 0, newCap)
 			continue
 		}
 		return n, err
